@@ -22,6 +22,12 @@ func TestGen(t *testing.T) {
 		} else {
 			genCrash(t, out, budget)
 		}
+	case "C30":
+		if replay != "" {
+			replayLambda(t, out, replay)
+		} else {
+			genLambda(t, out, budget)
+		}
 	default:
 		t.Fatalf("unknown VERIF_PROPERTY %q", os.Getenv("VERIF_PROPERTY"))
 	}
